@@ -114,8 +114,7 @@ def run(atoms, levels, monitors, nested_tail=False, chunk=None, procs=None):
     # atoms whose own text re rejects are defects of their constructor (C03/C06); nothing is built on them
     dropped = [a.expr for a in atoms if not rx.compiles(a.text)[0]]
     atoms = [a for a in atoms if rx.compiles(a.text)[0]]
-    _CFG['partner_states'] = [[a for a in (dsl.atom(e, l) for (e, l) in lv.partners) if rx.compiles(a.text)[0]]
-                              for lv in levels]
+    _CFG['partner_states'] = [[a for a in dsl.safe_atoms(lv.partners) if rx.compiles(a.text)[0]] for lv in levels]
     total = Acc()
     states = {}
     for a in atoms:
